@@ -126,9 +126,21 @@ var relations = []relation{
 		if finite(scale) && (scale > 1e300 || math.Abs(i0) < 1e-290 || math.Abs(ip) < 1e-290) {
 			return true, "", lab // overflow / gradual underflow of one of the three values
 		}
-		ok := !pm && !p0 && !pp && finite(scale) && math.Abs(im-ip-2*nu/x*i0) <= 1e-11*(1+x/8+math.Abs(nu)/4)*scale
+		ok := !pm && !p0 && !pp && finite(scale) && math.Abs(im-ip-2*nu/x*i0) <= 1e-11*(1+math.Abs(x)/8+math.Abs(nu)/4)*scale
 		return ok, fmt.Sprintf("I(v-1)=%v I(v)=%v I(v+1)=%v", im, i0, ip), lab
-	}, nil},
+	}, besselSignedGrid},
+	// round 3: integer orders on the whole real axis: I_n(-x) = (-1)^n I_n(x), I_{-n} = I_n, log variant NaN exactly where the value is negative
+	{"I(n,-x)=(-1)^n I(n,x), I(-n,x)=I(n,x)", func(v []float64) (bool, string, string) {
+		n, x := math.Round(v[0]), v[1]
+		for _, fn := range []string{"BesselIDomain", "LogBesselIDomain"} {
+			for _, w := range [][2]float64{{n, x}, {-n, x}, {n, -x}, {-n, -x}} {
+				if ok, obs, ref, label := domainOracle(fn, int(2*w[0]), w[1]); !ok {
+					return false, fmt.Sprintf("%s(%v, %v) = %v, specified %v", fn[:len(fn)-6], w[0], w[1], obs, ref), label
+				}
+			}
+		}
+		return true, "", "integer-order"
+	}, besselSignedGrid},
 	{"LogBesselI=log(BesselI)", func(v []float64) (bool, string, string) {
 		nu, x := v[0], v[1]
 		i0, p0 := safe(func() float64 { return sp.BesselI(nu, x) })
@@ -136,11 +148,14 @@ var relations = []relation{
 		lab := besselLabel(nu, x)
 		if p0 || !finite(i0) || i0 <= 1e-300 {
 			// plain variant overflows / underflows / is negative: the log variant must still be a number
+			if !p0 && i0 < -1e-290 {
+				return !p1 && math.IsNaN(l0), fmt.Sprintf("BesselI=%v < 0 but LogBesselI=%v (NaN specified)", i0, l0), lab + ":negative"
+			}
 			return !p1 && (!math.IsNaN(l0) || i0 < 0 || math.IsNaN(i0)), fmt.Sprintf("BesselI=%v LogBesselI=%v", i0, l0), lab
 		}
 		ok := !p1 && math.Abs(l0-math.Log(i0)) <= 1e-11*(1+math.Abs(math.Log(i0))+x/8+math.Abs(nu)/4)
 		return ok, fmt.Sprintf("log(BesselI)=%v LogBesselI=%v", math.Log(i0), l0), lab
-	}, nil},
+	}, besselSignedGrid},
 	{"LogErfc=log(erfc)", func(v []float64) (bool, string, string) {
 		x := v[0]
 		l := sp.LogErfc(x)
@@ -369,6 +384,8 @@ func genArgs(kind string, r *Rng) []float64 {
 			x = logUniform(r, 700, 1e6)
 		}
 		return []float64{v, x}
+	case "I(n,-x)=(-1)^n I(n,x), I(-n,x)=I(n,x)":
+		return []float64{float64(r.Range(0, 40)), logUniform(r, 1e-3, 600)}
 	case "igamma continuous across method boundaries":
 		// the diagonal x == a (Temme: `x >= a`) at arbitrary non-integer a, and the sigma / 20/a boundaries
 		a := logUniform(r, 20, 1200)
@@ -935,6 +952,17 @@ func igammaBoundaryGrid() [][]float64 {
 			if x > 0 && finite(x) {
 				out = append(out, []float64{a, x})
 			}
+		}
+	}
+	return out
+}
+
+// integer orders of both signs at arguments of both signs (the recurrence, the log variant and the parity relations)
+func besselSignedGrid() [][]float64 {
+	var out [][]float64
+	for n := -12; n <= 12; n++ {
+		for _, x := range []float64{0.5, 2, 2.5, 20, 150, -0.5, -2, -2.5, -20, -150} {
+			out = append(out, []float64{float64(n), x})
 		}
 	}
 	return out
